@@ -24,7 +24,7 @@ import (
 	"verifharness/kit"
 )
 
-// probe replays the node-limit finding end to end (`vh-c03 probe`): a dynamic NodePool with limits.nodes = 2,
+// probe replays the history of F11 (fixed by 1e4ed4d16; now 2 NodeClaims are created) end to end (`vh-c03 probe`): a dynamic NodePool with limits.nodes = 2,
 // four mutually anti-affine pods in one batch, real Provisioner.Schedule + CreateNodeClaims.
 func probe() {
 	ctx := kit.Context()
